@@ -315,6 +315,14 @@ func cbEEDCodec() *pkgCodec {
 			for i := 0; i < cbN(tier, 150, 3000); i++ {
 				emit(mk(cbSmallLen(rng), cbSmallLen(rng)*(1+rng.Intn(3)), cbSmallLen(rng), cbSmallLen(rng)).fields())
 			}
+			// messages ending in line feeds (the server sends some with one; the reader strips exactly one)
+			for _, tail := range []string{"\n", "\n\n", "\r\n", "x\n", "\nx"} {
+				for _, l := range []int{0, 1, 7, 254} {
+					e := mk(5, l, 3, 4)
+					e.msg = append(e.msg, tail...)
+					emit(e.fields())
+				}
+			}
 		},
 		SpecEnc: func(f []string) ([]byte, bool) {
 			e, ok := cbParseEED(f)
